@@ -134,6 +134,53 @@ def hAt (c : Counts) (T : Rat) : Option Rat :=
 example : hAt c₁ 300 = some (9/2) ∧ hAt c₂ 300 = some (9/2) := by decide +kernel
 end ExCounts
 
+/-- **Full statement — "same counts ⇒ the same values, failures included", with no condition on which names are listed — is
+false of the code**: a descriptor listed with the count 0 contributes nothing to any value, but it is a term of the estimate — its
+datum is asked for (`sum(count*correlation.get_X(T) …)` evaluates every term), its range is intersected, and it must have data. -/
+def PIPE_value_depends_on_counts_only_full : Prop :=
+  ∀ (reg : List String) (lib : Lib) (c c' : Counts) (s : String) (e e' : Estimator),
+    (Counts.keys c).Nodup → (Counts.keys c').Nodup → (∀ k, c.get k = c'.get k) →
+    estimate reg lib c s = .ok e → estimate reg lib c' s = .ok e' → ∀ T, SameVal (e.CpoR T) (e'.CpoR T)
+
+/-- the witness: `{a: 1}` and `{a: 1, z: 0}` where `z` has no heat-capacity datum (on the real code: BensonGA, ethane's
+`{'C(C)(H)3': 2}` with `'C[d](C[B])2(C[d])': 0` added — `Cp/R(300)` raises `IncompleteDataError`, the range shrinks from
+`(298, 1500)` to `(298, 300)`, `H/RT` is unchanged: `notes/Pipeline.md`) -/
+theorem PIPE_value_depends_on_counts_only_full_fails : ¬ PIPE_value_depends_on_counts_only_full := by
+  intro h
+  let cA : Corr := ⟨fun _ => .ok 2, fun _ => .ok 1, fun _ => .ok 1, none⟩
+  let cZ : Corr := ⟨fun _ => .error .incomplete, fun _ => .ok 5, fun _ => .ok 1, none⟩
+  let lib : Lib := ⟨[("a", [("t", cA)]), ("z", [("t", cZ)])], none, none⟩
+  have find : ∀ (c : Counts) (p : Val → Bool), (match estimate ["t"] lib c "t" with | .ok e => p (e.CpoR 300) | .error _ => false) = true →
+      ∃ e, estimate ["t"] lib c "t" = .ok e ∧ p (e.CpoR 300) = true := by
+    intro c p hp
+    cases he : estimate ["t"] lib c "t" with
+    | error err => rw [he] at hp; cases hp
+    | ok e => rw [he] at hp; exact ⟨e, rfl, hp⟩
+  have h1 : ∃ e, estimate ["t"] lib [("a", 1)] "t" = .ok e ∧ e.CpoR 300 = .ok 2 := by
+    obtain ⟨e, he, hp⟩ := find [("a", 1)] (fun v => Ex01.okVal v 2) (by decide +kernel)
+    refine ⟨e, he, ?_⟩
+    cases hv : e.CpoR 300 with
+    | error err => simp [hv, Ex01.okVal] at hp
+    | ok w => simp only [hv, Ex01.okVal, beq_iff_eq] at hp; rw [hp]
+  have h2 : ∃ e, estimate ["t"] lib [("a", 1), ("z", 0)] "t" = .ok e ∧ e.CpoR 300 = .error .incomplete := by
+    obtain ⟨e, he, hp⟩ := find [("a", 1), ("z", 0)] (fun v => Ex01.errVal v .incomplete) (by decide +kernel)
+    refine ⟨e, he, ?_⟩
+    cases hv : e.CpoR 300 with
+    | error err => simp only [hv, Ex01.errVal, beq_iff_eq] at hp; rw [hp]
+    | ok w => simp [hv, Ex01.errVal] at hp
+  obtain ⟨e, he, hv⟩ := h1
+  obtain ⟨e', he', hv'⟩ := h2
+  have hg : ∀ k, Counts.get [("a", 1)] k = Counts.get [("a", 1), ("z", 0)] k := by
+    intro k
+    by_cases ha : "a" = k
+    · subst ha; simp [Counts.get]
+    · by_cases hz : "z" = k
+      · subst hz; simp [Counts.get]
+      · simp [Counts.get, ha, hz]
+  have := (h ["t"] lib _ _ "t" e e' (by decide) (by decide) hg he he' 300 2).mp hv
+  rw [hv'] at this
+  cases this
+
 /-! ### C03 ∘ C01 — renumbering the atoms -/
 
 /-- the estimate on record under another molecule: only the elemental term can tell -/
@@ -221,6 +268,47 @@ theorem PIPE_relabel_invariant (sel : Nat → Option Rat) (reg : List String) (S
       (fun k => (decompose_relabel_keys S iso hm hq hs hcap hcap' hcf c c' hc hc' k).symm)
       (fun k => (R.2 c c' hc hc' k).symm)
   · exact (iso.atoms_perm'.map (·.Z)).symm
+
+/-- **C03 ∘ C01, presentation of the rings (proved part).**  Under the hypotheses of `C03_decompose_ring_presentation_partial` —
+`rs'` presents the same rings as `m.rings` (each ring's atom list rotated/reflected at will, the list reordered at will) and no two
+rings that pass Benson's check share a bond (`EligibleRingsBondDisjoint`; without it the decomposition itself depends on the ring
+order: finding F3, `C03_decompose_ring_presentation_full_fails`) — the pipeline has the same outcome on the graph with either
+ring list. -/
+theorem PIPE_ring_presentation_invariant_partial (sel : Nat → Option Rat) (reg : List String) (S : SchemeDef) (lib : Lib)
+    (set : String) (m : Mol) (rs' : List (List Nat)) (h : RingsSame m.rings rs') (hd : EligibleRingsBondDisjoint m)
+    (hm : m.wf = true) (hq : S.wf = true) (hs : S.noStar = true)
+    (hcap : maxRaw S (aromatizeBenson m) < maxMatches)
+    (hcap' : maxRaw S { aromatizeBenson m with rings := rs' } < maxMatches) (hcf : ChainFree S.remaps) :
+    SameOutcome sel (pipeline reg S lib m set) (pipeline reg S lib { m with rings := rs' } set) := by
+  have R := PGA.C03.C03_decompose_ring_presentation_partial S m rs' h hd hm hq hs hcap hcap' hcf
+  apply sameOutcome_of_perm sel reg S lib set m { m with rings := rs' } R.1
+  · intro c c' hc hc'
+    exact counts_perm c c' (decompose_nodup S m c hc) (decompose_nodup S _ c' hc')
+      (fun k => (decompose_ring_presentation_keys S m rs' h hd hm hq hs hcap hcap' hcf c c' hc hc' k).symm)
+      (fun k => (R.2 c c' hc hc' k).symm)
+  · exact List.Perm.refl _
+
+/-- **C03 ∘ C20: the quadratic form does not see the numbering either.**  Under the hypotheses of `PIPE_relabel_invariant`, for a
+library with uncertainty data (distinct basis entries): the two estimates carry the same `q = xᵀMx`, RMSE correlation and degrees
+of freedom — hence the same standard errors (C20). -/
+theorem PIPE_relabel_quadratic (reg : List String) (S : SchemeDef) (lib : Lib) (set : String)
+    {π : Nat → Nat} {m m' : Mol} (iso : MolIso π m m')
+    (hm : m.wf = true) (hq : S.wf = true) (hs : S.noStar = true)
+    (hcap : maxRaw S (aromatizeBenson m) < maxMatches) (hcap' : maxRaw S (aromatizeBenson m') < maxMatches)
+    (hcf : ChainFree S.remaps) (u : UQ String) (hu : lib.uq = some u) (hb : u.basis.Nodup)
+    (e e' : Estimator) (he : pipeline reg S lib m set = .ok e) (he' : pipeline reg S lib m' set = .ok e') :
+    ∃ q q', e.uq = some q ∧ e'.uq = some q' ∧ q'.q = q.q ∧ q'.rmse = q.rmse ∧ q'.dof = q.dof := by
+  obtain ⟨c, e0, hc, he0, rfl⟩ := (pipeline_ok_iff reg S lib m set e).mp he
+  obtain ⟨c', e0', hc', he0', rfl⟩ := (pipeline_ok_iff reg S lib m' set e').mp he'
+  have R := PGA.C03.C03_decompose_relabel S iso hm hq hs hcap hcap' hcf
+  have nc := decompose_nodup S m c hc
+  have nc' := decompose_nodup S m' c' hc'
+  have hp := counts_perm c c' nc nc'
+    (fun k => (decompose_relabel_keys S iso hm hq hs hcap hcap' hcf c c' hc hc' k).symm) (fun k => (R.2 c c' hc hc' k).symm)
+  obtain ⟨q, a1, a2, a3, _, _⟩ := C20_q reg lib c set e0 u he0 hu nc hb
+  obtain ⟨q', b1, b2, b3, _, _⟩ := C20_q reg lib c' set e0' u he0' hu nc' hb
+  obtain ⟨h1, h2⟩ := C20_order reg lib c c' set e0 e0' u q q' hp he0 he0' hu nc hb a1 b1
+  exact ⟨q, q', a1, b1, h1, h2, by rw [a3, b3]⟩
 
 /-! #### non-vacuity: the C–H fragment of `Props/C03.lean` and the same fragment with its two atoms swapped -/
 namespace ExRelabel
@@ -545,6 +633,25 @@ theorem PIPE_mixture_quadratic (reg : List String) (S : SchemeDef) (lib : Lib) (
   rw [u4, a4, b4, hx]
   exact specQuad_vplus u.mat _ _ (by rw [specX_length, specX_length])
 
+/-- **… for a symmetric matrix** (the stored matrices are symmetric: table obligation of C14 for the shipped libraries):
+`q(A ⊔ B) = q_A + q_B + 2·x_AᵀM x_B`. -/
+theorem PIPE_mixture_quadratic_symmetric (reg : List String) (S : SchemeDef) (lib : Lib) (set : String)
+    (A B : Mol) (H : UnionHyps S A B) (hsep : SeparatedMol S A B) (eU eA eB : Estimator)
+    (hU : pipeline reg S lib (A.union B) set = .ok eU) (hA : pipeline reg S lib A set = .ok eA)
+    (hB : pipeline reg S lib B set = .ok eB) (u : UQ String) (hu : lib.uq = some u) (hb : u.basis.Nodup)
+    (hsym : ∀ i j, entry u.mat i j = entry u.mat j i) :
+    ∃ rA rB qU qA qB, decompose S A = .ok rA ∧ decompose S B = .ok rB ∧
+      eU.uq = some qU ∧ eA.uq = some qA ∧ eB.uq = some qB ∧
+      qU.q = qA.q + qB.q + 2 * specBilin u.mat (specX u.basis rA) (specX u.basis rB) := by
+  obtain ⟨rU, rA, rB, qU, qA, qB, hdU, hdA, hdB, u1, a1, b1, _, hq, _⟩ :=
+    PIPE_mixture_quadratic reg S lib set A B H hsep eU eA eB hU hA hB u hu hb
+  refine ⟨rA, rB, qU, qA, qB, hdA, hdB, u1, a1, b1, ?_⟩
+  obtain ⟨rU', eU0, hdU', heU, rfl⟩ := (pipeline_ok_iff reg S lib _ set eU).mp hU
+  rw [hdU] at hdU'; cases hdU'
+  obtain ⟨_, _, _, _, _, hsq⟩ := C20_q reg lib rU set eU0 u heU hu (decompose_nodup _ _ _ hdU) hb
+  rw [hq, specBilin_symm u.basis.length u.mat (specX u.basis rB) (specX u.basis rA) hsq (specX_length _ _) (specX_length _ _) hsym]
+  ring
+
 /-- **The full statement — standard errors of a mixture from additive quadratic forms — is false of the code (and of any
 quadratic form).** -/
 def PIPE_mixture_quadratic_additive_full : Prop :=
@@ -608,6 +715,13 @@ example : pkindOf (pipeline ["thermochem"] exScheme libNoCH exMol "thermochem") 
     pkindOf (pipeline ["thermochem"] exScheme libNoCH (exMol.union exMol) "thermochem") = some (.estimate .missing) := by
   decide +kernel
 
+/-- the matrix of the example library is symmetric (hypothesis of `PIPE_mixture_quadratic_symmetric`), its basis has distinct
+entries, and the cross term is `2·x_AᵀMx_A = 16` -/
+example : ∀ i j, entry ([[1, 0, 0], [0, 2, 1], [0, 1, 3]] : List (List Rat)) i j = entry [[1, 0, 0], [0, 2, 1], [0, 1, 3]] j i := by
+  intro i j
+  rcases i with _ | _ | _ | i <;> rcases j with _ | _ | _ | j <;> simp [entry]
+example : (["CH", "C(H)", "H(C)"] : List String).Nodup ∧
+    2 * specBilin [[1, 0, 0], [0, 2, 1], [0, 1, 3]] [1, 1, 1] [1, 1, 1] = 16 := by decide +kernel
 end ExMix
 
 /-- the witness: `q(A ⊔ A) = 32 ≠ 8 + 8` -/
